@@ -9,7 +9,9 @@ C13 — Request handling restores thread-local state and runs callbacks on every
 Property theorems only; helper lemmas are in `Lemmas/Skeleton.lean`, `Lemmas/Pipeline.lean`.
 -/
 import PyramidModel.Lemmas.Skeleton
+import PyramidModel.Lemmas.SkeletonMonitor
 import PyramidModel.Lemmas.Pipeline
+import PyramidModel.Lemmas.PipelineMonitor
 import PyramidModel.Gen.C13Skeleton
 
 namespace Pyr.Props.C13
@@ -148,6 +150,95 @@ example : balanced noQuiet (.seq .push (.tryFinally (.call 0) .pop)) = true := b
 example : balanced noQuiet (.seq .push (.seq (.call 0) .pop)) = false := by decide
 example : (exec ⟨fun _ _ => true, fun _ _ => false, fun _ _ => 0⟩ (.seq .push (.seq (.call 0) .pop)) ⟨3, []⟩).1.depth = 4 := by
   decide
+
+/-! ### the request path of the generated skeletons against the callback-order and stage-order monitors -/
+
+/-- General: when `post` accepts a statement from the initial monitor state, then for EVERY oracle the monitor
+accepts the whole observation sequence of the execution (`run … = some q`), and the final (monitor state, height,
+outcome) is one of those `post` listed. -/
+theorem monitor_sound (m : Monitor) (qt : Nat → Bool) (s : Stmt) (q0 : Nat) (R : List ARes)
+    (h : post m qt s (q0, 0) = some R) (o : Oracle) (ho : o.respects qt) (d : Nat) :
+    ∃ q h', m.run d q0 (exec o s ⟨d, []⟩).1.trace = some q ∧ (exec o s ⟨d, []⟩).1.depth = d + h' ∧
+      ((q, h'), (exec o s ⟨d, []⟩).2) ∈ R := by
+  obtain ⟨a', hd, hm⟩ := post_sound (m := m) ho s (q0, 0) R h d q0 ⟨d, []⟩ ⟨rfl, rfl⟩
+  exact ⟨a'.1, a'.2, hd.2, hd.1, hm⟩
+
+/-- The generated observation map (call site ↦ role) is a function, names each of the 11 roles exactly once, and
+its sites are call sites of `Router.__call__` (roles 0–3) / `Router.handle_request` (roles 4–10). -/
+theorem site_roles_wellformed : rolesWellFormed siteRoles Router_call Router_handle_request = true := by decide
+
+/-- Generated obligations: `post` accepts the three request-path entry points against the callback-order monitor
+(events at height 1 inside the RequestContext of `Router.__call__` / `invoke_subrequest`, height 0 for
+`invoke_request` itself) and `handle_request` against the stage-order monitor. -/
+theorem request_path_checked :
+    checkCb siteRoles (quietList noRaise) 1 Router_call = true ∧
+    checkCb siteRoles (quietList noRaise) 1 Router_invoke_subrequest = true ∧
+    checkCb siteRoles (quietList noRaise) 0 Router_invoke_request = true ∧
+    checkStages siteRoles (quietList noRaise) Router_handle_request = true := by decide +kernel
+
+theorem checkCb_sound (table : List (Nat × Nat)) (qt : Nat → Bool) (H : Nat) (s : Stmt)
+    (h : checkCb table qt H s = true) (o : Oracle) (ho : o.respects qt) (d : Nat) :
+    ∃ q, (cbOrder table H).run d 0 (exec o s ⟨d, []⟩).1.trace = some q ∧ (exec o s ⟨d, []⟩).1.depth = d ∧
+      (10 ≤ q ∨ q = 0) ∧ ((exec o s ⟨d, []⟩).2 ≠ .raised → q ∈ [11, 12, 13]) ∧ (q ∈ [14, 15, 16] → (exec o s ⟨d, []⟩).2 = .raised) := by
+  simp only [checkCb] at h
+  split at h
+  · next R hR =>
+    obtain ⟨q, h', hrun, hdep, hmem⟩ := monitor_sound _ qt s 0 R hR o ho d
+    have := (List.all_eq_true.mp h) _ hmem
+    simp only [Bool.and_eq_true, beq_iff_eq, Bool.or_eq_true, Bool.not_eq_true', decide_eq_true_eq] at this
+    obtain ⟨⟨⟨h0, h10⟩, h1⟩, h2⟩ := this
+    refine ⟨q, hrun, by omega, h10, ?_, ?_⟩
+    · intro hne
+      rcases h1 with h1 | h1
+      · exact absurd h1 hne
+      · exact List.contains_iff_mem.mp h1
+    · intro hq
+      rcases h2 with h2 | h2
+      · have := List.contains_iff_mem.mpr hq
+        rw [h2] at this; cases this
+      · exact h2
+  · simp at h
+
+/-- **Callback order follows the source.**  For every oracle (which call sites raise, which branches are taken, how
+many callbacks the deques hold) and every entry depth, the execution of the generated `Router.__call__`,
+`Router.invoke_subrequest` and `Router.invoke_request` skeletons is accepted by the callback-order monitor: the chain
+is called at most once and first; response callbacks run only after it returned, NewResponse only after them and
+only if none of them raised; once a finished callback has run nothing but finished callbacks follows, and nothing
+follows a failing one; every such event happens exactly one frame above the caller (`H = 1`; inside the request's
+own RequestContext), the depth is restored, EVERY execution that entered the pipeline reaches `finish_request` (state
+≥ 10: also when the chain or a callback raised; state 0 = it failed before, with no event at all), one that does not raise has seen the chain respond, and one in which an observed event raised
+raises. -/
+theorem request_path_obeys_callback_order (o : Oracle) (ho : o.respects (quietList noRaise)) (d : Nat) :
+    ∀ e ∈ [(Router_call, 1), (Router_invoke_subrequest, 1), (Router_invoke_request, 0)],
+    ∃ q, (cbOrder siteRoles e.2).run d 0 (exec o e.1 ⟨d, []⟩).1.trace = some q ∧ (exec o e.1 ⟨d, []⟩).1.depth = d ∧
+      (10 ≤ q ∨ q = 0) ∧ ((exec o e.1 ⟨d, []⟩).2 ≠ .raised → q ∈ [11, 12, 13]) ∧ (q ∈ [14, 15, 16] → (exec o e.1 ⟨d, []⟩).2 = .raised) := by
+  intro e he
+  simp only [List.mem_cons, List.mem_nil_iff, or_false] at he
+  rcases he with he | he | he <;> subst he
+  · exact checkCb_sound _ _ _ _ request_path_checked.1 o ho d
+  · exact checkCb_sound _ _ _ _ request_path_checked.2.1 o ho d
+  · exact checkCb_sound _ _ _ _ request_path_checked.2.2.1 o ho d
+
+/-- **Stage order follows the source.**  For every oracle, `Router.handle_request` notifies NewRequest, calls the
+routes mapper, notifies BeforeTraversal, calls the root (or route) factory, the traverser, notifies ContextFound and
+calls the view, in that order, each at most once, all at the caller's height, and nothing of it after one failed. -/
+theorem handle_request_obeys_stage_order (o : Oracle) (ho : o.respects (quietList noRaise)) (d : Nat) :
+    ∃ q, (stageOrder siteRoles).run d 3 (exec o Router_handle_request ⟨d, []⟩).1.trace = some q := by
+  have h := request_path_checked.2.2.2
+  simp only [checkStages] at h
+  cases hp : post (stageOrder siteRoles) (quietList noRaise) Router_handle_request (3, 0) with
+  | none => rw [hp] at h; cases h
+  | some R =>
+    obtain ⟨q, _, hrun, _, _⟩ := monitor_sound _ _ _ 3 R hp o ho d
+    exact ⟨q, hrun⟩
+
+/-- non-vacuity of the monitors: they reject what the property forbids -/
+example : checkCb [(0, 0), (1, 1), (2, 2), (3, 3), (7, 11)] noQuiet 0
+    (.tryFinally (.seq (.call 0) (.seq (.loop 9 (.call 1)) (.call 2))) (.ite 7 (.loop 8 (.call 3)) .skip)) = true := by decide
+example : checkCb [(0, 0), (1, 1), (2, 2), (3, 3), (7, 11)] noQuiet 0        -- NewResponse before the response callbacks
+    (.tryFinally (.seq (.call 0) (.seq (.call 2) (.loop 9 (.call 1)))) (.ite 7 (.loop 8 (.call 3)) .skip)) = false := by decide
+example : checkCb [(0, 0), (1, 1), (2, 2), (3, 3), (7, 11)] noQuiet 0        -- finish_request not in a finally
+    (.seq (.call 0) (.seq (.loop 9 (.call 1)) (.seq (.call 2) (.ite 7 (.loop 8 (.call 3)) .skip)))) = false := by decide
 
 end Skeleton
 
@@ -291,6 +382,20 @@ theorem response_then_all_callbacks_then_newresponse (xv top : Bool) (r : Req) (
   rw [hr1, List.filterMap_cons_none (by rfl), hr2]
   simp [expectedResp_of_none _ _ hpreok]
 
+/-- PARTIAL link between the two models (`pipeline_refines_skeleton`).  Proved: the own log of the hand-written
+pipeline model, for every request tree, schedule and entry stack, projected to the skeleton's observation alphabet
+(chain called / response callback / NewResponse / finished callback, each with "it raised", plus "finish_request is
+reached" before the first finished callback or at the end), is accepted by the very monitor (`Skel.cbOrderStep`) that
+accepts every execution of the generated `Router.__call__` / `invoke_subrequest` / `invoke_request` skeletons for every
+oracle (`request_path_obeys_callback_order`), and finish_request is reached.  So the order and multiplicity-class of
+response callbacks / NewResponse / finished callbacks claimed by the model are those the regenerated source allows.
+Missing for the full refinement: that each model log is the observation of `exec` under a corresponding oracle
+(trace equality, incl. the stage events inside `handle_request` and the exception view); that direction is checked per
+case by the harness (`find_oracle` + Lean `exec`), not proved. -/
+theorem pipeline_refines_skeleton_partial (xv top : Bool) (r : Req) (self : Path) (stack0 : List Path) :
+    ∃ q, accepts 0 (withFinish (proj r.cfg (ownLog xv top r self stack0))) = some q ∧ 10 ≤ q :=
+  pipeline_accepted xv top r self stack0
+
 /-! ### non-vacuity: concrete schedules -/
 
 /-- no custom exception view; a finished callback registered by the NewRequest subscriber, a response callback by the
@@ -316,6 +421,8 @@ example : finIds (runTop true demoReq2 [[7]]).1.own = [0, 2, 2] := by decide +ke
 example : respTrace (runTop true demoReq2 [[7]]).1.own = [some 1, none] := by decide +kernel
 example : ∀ i ∈ regsOf .fin (ownLog true true demoReq2 [] [[7]]), cbFaulty demoReq2.cfg i = false := by decide +kernel
 example : Ev.hook .viewBody true 2 ∈ (runTop true demoReq2 [[7]]).1.own := by decide +kernel
+example : withFinish (proj demoReq2.cfg (runTop true demoReq2 [[7]]).1.own) =
+    [(0, false), (1, false), (2, false), (11, false), (3, false), (3, false), (3, false)] := by decide +kernel
 
 /-- excluded point of `finished_once_in_order_last` (outside the statement's fault list): a finished callback that
 fails keeps the later ones from running -/
